@@ -70,15 +70,15 @@ CHECKS["C05"] = dict(
 CHECKS["C01"] = dict(
     engine="symx+z3",
     technique="bounded symbolic execution (symx/z3): BV-mode lemma on symbolic exception-table bytes and a symbolic instruction index for the real decoder and the real handler-chain walk (AST slice of inspect_frame); per compiled code object of a with-centric program grammar, f_lasti symbolic over every reachable suspension offset through the real contexts_active_in_frame with a validated inspect_frame model; oracle = tagged abstract interpretation",
-    text="Lemma: for all tables of 1-2 (thorough 3) entries with 1-2 (3) byte varints with symbolic payloads and every instruction index, the real decoder equals the format spec and the real chain walk equals CPython's get_exception_handler iterated. Main: for every code object of the corpus (quick ~670, thorough ~5000) and every reachable suspension offset, the real analysis returns exactly the entered-but-not-exited managers (obj identity, is_async, is_exiting), without InspectionWarning. CPython 3.12 only; the corpus is a stated bound, not a solver result.",
-    note="The ctypes half of inspect_frame is replaced by a model (blocks from the real chain walk, stack from the abstract interpreter) that is validated against the real interpreter at every real suspension of every program in the run (mismatch = exit 2). Known finding F2 is classified by a bytecode-only predicate and reported as KNOWN-FINDING. Counterexamples are replayed on really suspended frames.",
+    text="Lemma: for all tables of 1-2 (thorough 3) entries with 1-2 (3) byte varints with symbolic payloads and every instruction index, the real decoder equals the format spec and the real chain walk equals CPython's get_exception_handler iterated. Main: for every code object of the corpus (quick ~670, thorough ~5000) and every reachable suspension offset, the real analysis returns exactly the entered-but-not-exited managers (obj identity, is_async, is_exiting), without InspectionWarning. CPython 3.12 and 3.11 (second interpreter leg); the corpus is a stated bound, not a solver result.",
+    note="The ctypes half of inspect_frame is replaced by a model (blocks from the real chain walk, stack from the abstract interpreter) that is validated against the real interpreter at every real suspension of every program in the run (mismatch = exit 2). Finding F2 (exit site mis-resolved for bodies ending in `if c: return` / try-except) was produced by this check, first recorded, then repaired in /repo (fix: 96d2c5b); its bytecode-only classifier stays in the harness and, the entry being marked fixed, suppresses nothing. Managers come in four implementation kinds (plain, inherited protocol, C-implemented __exit__ calling back into Python, both protocols). Counterexamples are replayed on really suspended frames.",
     ref="DESIGN.md 5.C01",
 )
 CHECKS["C08"] = dict(
     engine="symx+z3",
     technique="bounded symbolic execution (symx/z3) with f_lasti symbolic over every reachable suspension offset of each compiled code object (C01 corpus + target-form x layout corpus), real analyze_with_blocks / describe_assignment_target / locals fallback; oracle = AST of the same source joined through instruction positions; static stdlib table leg",
     text="Every Context reported at every reachable suspension offset has start_line = line of the with keyword and a varname that is None, or parses to the item's as-target, or (item without target) names a local bound to the manager; supported target forms are never dropped. Thorough: analyze_with_blocks for every with block of every function of the standard library (about 500 blocks) against the AST.",
-    note="As C01 for the model. The stdlib leg is a concrete enumeration of compiler output (corpus bound, no symbolic variable). CPython 3.12 only.",
+    note="As C01 for the model. A solver-enumerated grammar of as-targets (names, attribute / subscript / call chains, pairs, lists, starred, nested) is pushed through the real analyze_with_blocks: the varname is the target or None, never another expression (evidence records how many were rendered / dropped). The stdlib leg is a concrete enumeration of compiler output (corpus bound, no symbolic variable). CPython 3.12 and 3.11.",
     ref="DESIGN.md 5.C08",
 )
 
@@ -86,15 +86,15 @@ CHECKS["C20"] = dict(
     engine="symx+z3",
     technique="bounded symbolic execution (symx/z3): f_lasti symbolic over every reachable suspension offset through the real referents implementation with a validated collector model; symbolic (unbounded) index of the faulted step inside the trickery analysis on really suspended frames; solver-enumerated set_trickery_enabled sequences",
     text="(1) For every code object of the C01 corpus and every reachable suspension offset the referents answer contains every active manager in order with right obj/is_async, an is_exiting entry exactly when an exit call is in progress, and extras only for the manager being entered/exited. (2) For 4 programs driven through all their suspensions, a fault at ANY step k of analyze_with_blocks / inspect_frame / currently_exiting_context / the join yields the referents answer, exactly one InspectionWarning and no exception. (1b) About 70 programs of all kinds driven for real with trickery disabled: at the suspension whose index equals a symbolic (unbounded) integer, the real referents answer on the real frame with its real origin is judged against the managers' event log. (3) All sequences of length <= 3 (4) over True/False/None select the documented mode, observed on the calling and on another thread.",
-    note="Obligation 1 assumes the collector reports a frame's locals then its value stack bottom-up; this is validated against the real collector on really suspended generators in the run (mismatch = exit 2). F2 sites are reported as KNOWN-FINDING (the exiting-block matcher is shared by both modes). CPython 3.12 only.",
+    note="Obligation 1 assumes the collector reports a frame's locals then its value stack bottom-up; this is validated against the real collector on really suspended generators in the run (mismatch = exit 2). Findings produced by this check: F2 sites (shared exiting-block matcher; repaired) and F13 (managers whose __exit__ is implemented in C were missing in referents mode; repaired, fix: edb075d). CPython 3.12 and 3.11.",
     ref="DESIGN.md 5.C20",
 )
 
 CHECKS["C02"] = dict(
     engine="symx+z3",
     technique="bounded symbolic execution (symx/z3): f_lasti symbolic over the measured resting offsets of every reachable call-type instruction of each compiled code object, real contexts_active_in_frame with the inspect_frame model in running mode (stack trimmed by the real for/else slice); oracle = tagged abstract interpretation",
-    text="For every code object of the running-frame corpus (plain functions, generators, coroutines, async generators; quick ~830, thorough ~6500) and every reachable CALL / BEFORE_WITH / WITH_EXCEPT_START / SEND at each measured resting offset: a manager whose __enter__/__aenter__ is running is not listed, one whose __exit__/__aexit__ is running is listed last with is_exiting and obj set, everything else exact. CPython 3.12 only.",
-    note="Resting offsets are measured by real probes in the run and every real probe must rest at a tabled offset (else exit 2); the abstract interpreter is validated against the event log at every real probe. F2 sites reported as KNOWN-FINDING. Counterexamples are replayed with probes calling the real analysis on the really running frame.",
+    text="For every code object of the running-frame corpus (plain functions, generators, coroutines, async generators; quick ~830, thorough ~6500) and every reachable CALL / BEFORE_WITH / WITH_EXCEPT_START / SEND at each measured resting offset: a manager whose __enter__/__aenter__ is running is not listed, one whose __exit__/__aexit__ is running is listed last with is_exiting and obj set, everything else exact. CPython 3.12 and 3.11 (second interpreter leg).",
+    note="Resting offsets are measured by real probes in the run and every real probe must rest at a tabled offset (else exit 2); the abstract interpreter is validated against the event log at every real probe. F2 sites (now repaired) were reported through the shared classifier. Counterexamples are replayed with probes calling the real analysis on the really running frame.",
     ref="DESIGN.md 5.C02",
 )
 
@@ -149,7 +149,7 @@ CHECKS["C14"] = dict(
     engine="symx+z3",
     technique="bounded symbolic execution (symx/z3) of the real Trio glue over solver-enumerated task-tree shapes and thread-hop chains, each path a deterministic real trio.run; oracle = Trio's own child_nurseries / child_tasks and the construction order of the hops",
     text="Task trees of depth <= 2 (thorough 3), fan-out <= 2, <= 2 nested nurseries per task (57 shapes quick, several hundred thorough), each task blocked in its innermost body or in a nursery's __aexit__, 4 nursery-body endings, recurse_child_tasks on/off: each open nursery appears once in nesting order with obj the trio.Nursery and children exactly its child tasks (by root identity), recursively, no error, no warning. to_thread/from_thread alternation depth 0..3 (thorough 5), observed by another task and by the innermost level: the visible frames continue through every level in order with the bridging internals hidden.",
-    note="LOW SOLVER LEVERAGE. Every run is deterministic: tasks observed after wait_all_tasks_blocked(), threads parked on Events; free-running threads are outside. F2 shapes (nursery body ending in try/except or `if: return`, task blocked in that nursery's __aexit__) are reported as KNOWN-FINDING. DESIGN.md 5.C14 explains why this was first declared not applicable and what changed.",
+    note="LOW SOLVER LEVERAGE. Every run is deterministic: tasks observed after wait_all_tasks_blocked(), threads parked on Events; free-running threads are outside. Hop chains are rooted in a Trio task or in a foreign thread calling from_thread.run(trio_token=...); the foreign root at depth >= 3 produced finding F12 (repaired, fix: 0ae3ae7). F2 shapes (nursery body ending in try/except or `if: return`, task blocked in that nursery's __aexit__) were reported through the shared classifier until F2 was repaired. DESIGN.md 5.C14 explains why this was first declared not applicable and what changed.",
     ref="DESIGN.md 0a / 5.C14",
 )
 
